@@ -97,6 +97,9 @@ func (t *objTab) grow() {
 	}
 }
 
+// maxCacheSlots bounds the state cache of one worker: 2^25 slots = 320 MB (16 workers: 5 GB).
+const maxCacheSlots = 1 << 25
+
 // stateCache remembers, per happens-before state key, the largest remaining
 // (preemption, deviation) budgets it was reached with.
 type stateCache struct {
@@ -149,11 +152,34 @@ func (c *stateCache) seen(key uint64, pb, db int) bool {
 		db = 100
 	}
 	if c.n*2 >= len(c.keys) {
-		ok, opb, odb := c.keys, c.pb, c.db
-		c.alloc(len(ok) * 2)
-		for i, k := range ok {
-			if k != 0 {
-				c.put(k, opb[i], odb[i])
+		if len(c.keys) >= maxCacheSlots {
+			// Memory bound (a long thorough run visits hundreds of millions of states): the table
+			// stops growing. Entries that are already there keep pruning; a new state is only
+			// remembered while the table is at most 7/8 full, otherwise it is explored again when
+			// met again - never pruned wrongly, only less often.
+			if c.n*8 >= len(c.keys)*7 {
+				mask := uint64(len(c.keys) - 1)
+				for i := key & mask; ; i = (i + 1) & mask {
+					k := c.keys[i]
+					if k == 0 {
+						return false
+					}
+					if k == key {
+						if int(c.pb[i]) >= pb && int(c.db[i]) >= db {
+							c.hits++
+							return true
+						}
+						return false
+					}
+				}
+			}
+		} else {
+			ok, opb, odb := c.keys, c.pb, c.db
+			c.alloc(len(ok) * 2)
+			for i, k := range ok {
+				if k != 0 {
+					c.put(k, opb[i], odb[i])
+				}
 			}
 		}
 	}
